@@ -58,7 +58,11 @@ THEOREMS = {
             ("inv_init", "isEmail_outcome", "errstr_latest", "failed_setup_keeps_mode", "inv_setup", "free_releases", "reinit_ok",
              "inv_settings", "run_inv", "lifecycle_releases")],
     "C14": _gt("no_mutable_globals", "externals_mt_safe") + [("Eav.Props.C14", "Eav.Props.C14.sched_indep"), ("Eav.Props.C14", "Eav.Props.C14.shared_is_empty")],
-    "C15": _gt("errEnum_eq", "errors_tags", "errors_runtime", "errors_nonempty", "errors_distinct", "setup_eq"),
+    "C15": _gt("errEnum_eq", "errors_tags", "errors_runtime", "errors_nonempty", "errors_distinct", "setup_eq") +
+           [("Eav.Props.C15", "Eav.Props.C15." + n) for n in
+            ("localOf_range", "isAsciiDomain_range", "verdict_shape", "code_origin", "lpart_code_sound", "too_many_dots_sound", "domain_code_sound")] +
+           [("Eav.Props.C13", "Eav.Props.C13.errstr_latest"), ("Eav.Props.C13", "Eav.Props.C13.failed_setup_keeps_mode"),
+            ("Eav.Props.C19", "Eav.Props.C19.idn_failure_contained")],
     "C16": _gt("errEnum_eq", "tldTypeEnum_eq") + [("Eav.Props.C16", "Eav.Props.C16." + n) for n in
             ("checkIp_flags", "isTld_range", "checkTld_range", "rc_shape", "no_abort", "flags", "extra_strings")],
     "C17": _gt("buildOpts_eq", "specials_eq"),
